@@ -77,6 +77,35 @@ Section ArrayMap.
   (** [array::map!(input, closure)] *)
   Definition array_map_m (fuel : nat) (clo : nat -> A -> outcome B) (input : list A) : ares B :=
     amap_loop fuel clo input 0 0 (repeat None (length input)).
+
+  (** The macro as it was before the repair of finding F10: [let len = $array.len();] is a METHOD
+      call, so [len] is whatever a [len] method in scope at the call site returns for the array
+      type ([len_reported]); the output array still has the array's real length.  The repaired
+      macro takes N from the array's type ([array_len]), which is [length input]. *)
+  Fixpoint amap_loop_len (len_reported : nat) (fuel : nat) (clo : nat -> A -> outcome B) (input : list A)
+      (i calls : nat) (out : list (option B)) : ares B :=
+    match fuel with
+    | O => if i <? len_reported then Diverged else after_loop len_reported i out
+    | S fuel' =>
+        if i <? len_reported then
+          match nth_error input i with
+          | None => OutOfBounds
+          | Some x =>
+              match clo calls x with
+              | Value v =>
+                  if i <? length out
+                  then amap_loop_len len_reported fuel' clo input (S i) (S calls) (set_nth out i (Some v))
+                  else OutOfBounds
+              | Break => after_loop len_reported i out
+              | Continue => amap_loop_len len_reported fuel' clo input i (S calls) out
+              | Return => Returned
+              | Panic => Panicked
+              end
+          end
+        else after_loop len_reported i out
+    end.
+  Definition array_map_len_m (len_reported fuel : nat) (clo : nat -> A -> outcome B) (input : list A) : ares B :=
+    amap_loop_len len_reported fuel clo input 0 0 (repeat None (length input)).
 End ArrayMap.
 
 (** [array::from_fn!(closure)]: [__array_map] over [[(); N]] with [$get_input = i] *)
